@@ -2032,7 +2032,9 @@ class unyt_array(np.ndarray):
                 out_arr = ret_class(out_arr, unit, bypass_validation=True)
         if out is not None:
             if mul != 1:
-                multiply(out, mul, out=out)
+                # scale the bare view: out still carries its old unit, so
+                # going through unyt_array.__array_ufunc__ again could recurse
+                np.multiply(out_func, mul, out=out_func)
                 if np.shares_memory(out_arr, out):
                     mul = 1
             if isinstance(out, unyt_array):
